@@ -50,8 +50,9 @@ impl VirtualHandler {
             exemptions.clone(),
         )
         .await?;
-        let (wire_out_tx, wire_out) = mpsc::channel(4096);
-        let (wire_in, socket_recv) = mpsc::channel(256);
+        // the capacities of SendHandler::spawn and RecvHandler::spawn
+        let (wire_out_tx, wire_out) = mpsc::channel(30);
+        let (wire_in, socket_recv) = mpsc::channel(30);
         let socket = Socket::verif_virtual(wire_out_tx, socket_recv);
         METRICS.active_sessions.store(0, Ordering::Relaxed);
         let mut handler = Handler {
